@@ -376,6 +376,9 @@ class Fn:
             return "[%s]" % "; ".join(str(b) for b in e[1].strip('"').encode())
         if k == "num":
             return str(e[1])
+        if k == "bchar":
+            v0 = e[1]
+            return str(v0 if isinstance(v0, int) else ord(v0[2:-1]) if len(v0) == 4 else ord(rust_unescape(v0[2:-1])))
         if k == "char":
             return str(e[1])
         if k == "bool":
@@ -428,6 +431,8 @@ class Fn:
             dst_t = norm_type(e[2])
             if src_t in WIDTH and dst_t in WIDTH and WIDTH[src_t] <= WIDTH[dst_t]:
                 return self.ex(e[1], env)
+            if src_t in self.spec.get("enum_casts", {}):
+                return self.apply(self.spec["enum_casts"][src_t], [self.ex(e[1], env)])
             if src_t in WIDTH and dst_t == "u32" and self.spec.get("narrow_u32"):
                 return "(%s %s)" % (self.spec["narrow_u32"], self.ex(e[1], env))
             raise Unsupported("cast %s as %s" % (src_t, dst_t))
@@ -1016,6 +1021,10 @@ class Fn:
             if e8[0] == "mcall" and e8[1][0] == "path" and len(e8[1][1]) == 1 and (e8[1][1][0] + "." + e8[2]) in self.spec["effects_set"]:
                 var, tmpl = self.spec["effects_set"][e8[1][1][0] + "." + e8[2]]
                 return "let %s := %s in %s" % (var, self.apply(tmpl, [self.var(e8[1][1][0])] + [self.ex(a, env) for a in e8[3]]), after(env))
+        if k == "let" and s[1][0] == "pbind" and s[3] is not None and s[3][0] == "repeat" and s[3][1] == ("num", 0) and s[3][2][0] == "path" \
+                and "::".join(s[3][2][1]) in self.spec.get("buffer_sizes", {}) and self.spec.get("read_exact"):
+            self.buffers[s[1][1]] = self.spec["buffer_sizes"]["::".join(s[3][2][1])]
+            return after(dict(env, **{s[1][1]: "Vec<u8>"}))
         if k == "let" and s[1][0] == "pbind" and s[3] is not None and s[3][0] == "repeat" and s[3][1] == ("num", 0) and s[3][2][0] == "num" and self.spec.get("read_exact"):
             # `let mut m = [0u8; N];` - a buffer that a following `r.read_exact(&mut m)?` fills
             self.buffers[s[1][1]] = s[3][2][1]
@@ -1066,6 +1075,11 @@ class Fn:
             bind = "let %s := tt in " % self.var(s[1][1]) if (k == "let" and s[1][0] == "pbind") else ""
             env9 = dict(env, **{s[1][1]: "()"}) if (k == "let" and s[1][0] == "pbind") else env
             return "let effs := effs ++ [%s] in %s%s" % (efft, bind, after(env9))
+        sx = s[1][1] if (k == "expr" and s[1][0] == "try") else None
+        if sx is not None and sx[0] == "mcall" and ("." + sx[2]) in self.spec.get("try_res_calls", {}):
+            ev = self.fresh("e")
+            return "match %s with RErr %s => %s | ROk _ => %s end" % (self.apply(self.spec["try_res_calls"]["." + sx[2]], [self.ex(sx[1], env)] + [self.ex(a, env) for a in sx[3]]),
+                                                                       ev, ctx.ret("RErr " + ev) if False else "RErr " + ev, paren(after(env)))
         # `obj.check()?;` where a failure leaves the function with a fixed value
         if su is not None and s[1][0] == "try" and su[0] == "mcall" and ("." + su[2]) in self.spec.get("try_checks", {}):
             tmpl, errv = self.spec["try_checks"]["." + su[2]]
@@ -1879,6 +1893,61 @@ def functions():
                     errs=[(r"Invalid magic", "(RErr EMagic)"), (r"Unsupported version", "(RErr EVersion)"), (r"Payload too large", "(RErr ELength)")])
         return translate_fn(src, "validate", "FrameHeader", spec, "g_hvalidate", "(h : header)", "res unit", self_type="FrameHeader")
     out.append(("hvalidate", "src/protocol.rs FrameHeader::validate", None, t_hvalidate))
+
+    def hdr_spec():
+        return dict(fields={("FrameHeader", "magic"): ("[h_m0 {0}; h_m1 {0}; h_m2 {0}; h_m3 {0}]", "[u8;4]"),
+                            ("FrameHeader", "length"): ("(h_length {0})", "u32"), ("FrameHeader", "version"): ("(h_version {0})", "u8"),
+                            ("FrameHeader", "flags"): ("(h_flags {0})", "u16"), ("FrameHeader", "msg_type"): ("(h_type {0})", "MessageType")},
+                    consts={"PROTOCOL_MAGIC": ("[PROTO_MAGIC0; PROTO_MAGIC1; PROTO_MAGIC2; PROTO_MAGIC3]", "[u8;4]"),
+                            "PROTOCOL_VERSION": ("PROTO_VERSION", "u8"), "MAX_PAYLOAD_SIZE": ("MAX_PAYLOAD_SIZE", "u32")},
+                    eq={"[u8;4]": "(list_eqb Z.eqb)"}, rename={"self": "h"},
+                    structs={"Self": ("mk_header", ["magic", "length", "msg_type", "version", "flags"], ["[u8;4]", "u32", "MessageType", "u8", "u16"])},
+                    typed_methods={("u32", "to_le_bytes"): "put_u32 {0}", ("u16", "to_le_bytes"): "put_u16 {0}"},
+                    enum_casts={"MessageType": "mt_code {0}"},
+                    calls={"u32::from_le_bytes": ("le_bytes {0}", "u32"), "u16::from_le_bytes": ("le_bytes {0}", "u16"),
+                           "MessageType::from_u8": ("g_from_u8 {0}", "Option<MessageType>"), "Self::decode": ("g_header_decode {0}", "Res")},
+                    try_res_calls={".validate": "g_hvalidate {0}"}, opt_try_calls=("MessageType::from_u8",), try_none="RErr EType",
+                    ok=lambda s_: "ROk " + paren(s_))
+
+    def t_hdr_new():
+        src = read("src/protocol.rs")
+        spec = hdr_spec()
+        spec["signature"] = [("msg_type", "MessageType"), ("payload_len", "u32")]
+        return translate_fn(src, "new", "FrameHeader", spec, "g_header_new", "(msg_type : mtype) (payload_len : Z)", "header", self_type="FrameHeader")
+    out.append(("header_new", "src/protocol.rs FrameHeader::new", None, t_hdr_new))
+
+    def t_hdr_encode():
+        src = read("src/protocol.rs")
+        params, ret, body = R.find_fn(src, "encode", "FrameHeader")
+        spec = dict(hdr_spec(), debug_asserts=("checked", "None"), self_type="FrameHeader")
+        fn = Fn(spec)
+        text = fn.block(body, {"self": "FrameHeader"}, Ctx(val=(lambda x: "Some " + paren(x)), ret=(lambda x: x), fall=None))
+        return "Definition g_header_encode (checked : bool) (h : header) : option (list Z) :=\n  %s." % text
+    out.append(("header_encode", "src/protocol.rs FrameHeader::encode", None, t_hdr_encode))
+
+    def t_hdr_decode():
+        src = read("src/protocol.rs")
+        params, ret, body = R.find_fn(src, "decode", "FrameHeader")
+        if [n for n, _ in params] != ["buf"]:
+            raise Unsupported("signature of FrameHeader::decode is %s" % params)
+        spec = dict(hdr_spec(), self_type="FrameHeader", local_types={"header": "FrameHeader"})
+        fn = Fn(spec)
+        text = fn.block(body, {"buf": "[u8;12]"}, Ctx(val=(lambda x: x), ret=(lambda x: x), fall=None))
+        return "Definition g_header_decode (buf : list Z) : res header :=\n  %s." % text
+    out.append(("header_decode", "src/protocol.rs FrameHeader::decode", None, t_hdr_decode))
+
+    def t_hdr_read_from():
+        src = read("src/protocol.rs")
+        params, ret, body = R.find_fn(src, "read_from", "FrameHeader")
+        if [n for n, _ in params] != ["reader"]:
+            raise Unsupported("signature of FrameHeader::read_from is %s" % params)
+        spec = dict(hdr_spec(), self_type="FrameHeader", read_exact="RErr EIo", buffer_sizes={"Self::SIZE": "HEADER_SIZE"},
+                    errs=[(r"Invalid magic", "RErr EMagic")])
+        spec["calls"] = dict(spec["calls"], **{"Self::decode": ("with_rest (g_header_decode {0}) reader", "Res")})
+        fn = Fn(spec)
+        text = fn.block(body, {"reader": "Input"}, Ctx(val=(lambda x: x), ret=(lambda x: x), fall=None))
+        return "Definition g_header_read_from (reader : list Z) : res (header * list Z) :=\n  %s." % text
+    out.append(("header_read_from", "src/protocol.rs FrameHeader::read_from", None, t_hdr_read_from))
 
     def t_dvalidate():
         src = read("src/delta.rs")
@@ -2727,6 +2796,7 @@ GROUPS = {
     "Archive": ("Model.Archive", "archive", ["archive_load"]),
     "Plan": ("Model.Glob Model.Plan", False, ["needs_transfer", "glob_match", "is_excluded", "build_plan"]),
     "Protocol": ("Model.Checksum Model.Delta Model.Protocol", False, ["from_u8", "hvalidate"]),
+    "ProtocolHeader": ("Model.Checksum Model.Delta Model.Bincode Model.Protocol Gen.ProtocolGen", "protocolheader", ["header_new", "header_encode", "header_decode", "header_read_from"]),
     "CliReaders": ("Model.Checksum Model.Delta Model.Protocol", "clireaders", ["validate_block_size", "run_patch", "run_delta"]),
     "DeltaV": ("Model.Checksum Model.Delta", True, ["delta_validate"]),
     "SigTable": ("Model.Checksum Model.Delta", "sigtable", ["bsig_compute", "sig_generate", "table_from_signature", "table_find_match", "table_has_weak_match", "table_is_empty"]),
@@ -2908,6 +2978,14 @@ def main():
                      "Definition replace_char (c : Z) (lit s : list Z) : list Z := flat_map (fun x => if x =? c then lit else [x]) s.\n"
                      "(* `{t}` for an i64: a minus sign for a negative number, then the decimal digits *)\n"
                      "Definition dec_signed (n : Z) : list Z := if n <? 0 then 45 :: dec (- n) else dec n.\n\n" + "\n".join(texts))
+        elif digest == "protocolheader":
+            body += ("\n(* a FrameHeader value: the model's record, its `magic: [u8; 4]` field spread over four components *)\n"
+                     "Definition mk_header (magic : list Z) (length : Z) (t : mtype) (version flags : Z) : header :=\n"
+                     "  {| h_m0 := nthZ magic 0; h_m1 := nthZ magic 1; h_m2 := nthZ magic 2; h_m3 := nthZ magic 3; h_length := length; h_type := t; h_version := version; h_flags := flags |}.\n"
+                     "(* `uN::from_le_bytes([b0, b1, ..])` *)\n"
+                     "Fixpoint le_bytes (l : list Z) : Z := match l with [] => 0 | b :: r => b + 256 * le_bytes r end.\n"
+                     "Definition with_rest (r : res header) (rest : list Z) : res (header * list Z) := match r with ROk h => ROk (h, rest) | RErr e => RErr e end.\n\n"
+                     + "\n".join(texts))
         elif digest == "plainz":
             body += "\n" + "\n".join(texts)
         elif digest == "archivesys":
